@@ -8,7 +8,7 @@ echo "{" > seeded/detection.tmp
 first=1
 for d in seeded/C*-*; do
   key=$(basename $d); pid=${key%-*}
-  git -C /repo apply $d/patch.diff || { echo "cannot apply $key"; continue; }
+  git -C /repo apply /verif/$d/patch.diff || { echo "cannot apply $key"; continue; }
   if [ "$MODE" = all ]; then ids="C02 C03 C06 C07 C08 C09 C10 C11 C12 C14 C15 C18 C19 C20"; else ids="$pid"; fi
   res=""
   for id in $ids; do
